@@ -512,4 +512,185 @@ theorem matched_le_total (ps ms : List (Rat × Rat)) (hnn : ∀ p ∈ ps, 0 ≤ 
     obtain ⟨p, ⟨hp, _⟩, rfl⟩ := hx
     exact hnn p hp
 
+/-! ### sorting, fragment matches, coverage -/
+section
+variable {β : Type}
+
+theorem mem_insertBy (lt : β → β → Bool) (x z : β) (l : List β) : z ∈ insertBy lt x l ↔ z = x ∨ z ∈ l := by
+  induction l with
+  | nil => simp [insertBy]
+  | cons y ys ih =>
+    simp only [insertBy]
+    split
+    · simp only [List.mem_cons, ih]; tauto
+    · simp only [List.mem_cons]
+
+theorem mem_sortBy (lt : β → β → Bool) (z : β) (l : List β) : z ∈ sortBy lt l ↔ z ∈ l := by
+  induction l with
+  | nil => simp [sortBy]
+  | cons x xs ih => simp only [sortBy, mem_insertBy, ih, List.mem_cons]
+
+theorem insertBy_sorted (k : β → Rat) (x : β) (l : List β) (h : l.Pairwise (fun a b => k a ≤ k b)) :
+    (insertBy (fun a b => decide (k a < k b)) x l).Pairwise (fun a b => k a ≤ k b) := by
+  induction l with
+  | nil => simp [insertBy]
+  | cons y ys ih =>
+    rw [List.pairwise_cons] at h
+    simp only [insertBy]
+    split
+    · rename_i hlt
+      simp only [decide_eq_true_eq] at hlt
+      rw [List.pairwise_cons]
+      refine ⟨?_, ih h.2⟩
+      intro z hz
+      rcases (mem_insertBy _ _ _ _).mp hz with rfl | hz
+      · exact le_of_lt hlt
+      · exact h.1 z hz
+    · rename_i hlt
+      simp only [decide_eq_true_eq, not_lt] at hlt
+      rw [List.pairwise_cons]
+      refine ⟨?_, List.pairwise_cons.mpr h⟩
+      intro z hz
+      rcases List.mem_cons.mp hz with rfl | hz
+      · exact hlt
+      · exact le_trans hlt (h.1 z hz)
+
+theorem sortBy_sorted (k : β → Rat) (l : List β) :
+    (sortBy (fun a b => decide (k a < k b)) l).Pairwise (fun a b => k a ≤ k b) := by
+  induction l with
+  | nil => simp [sortBy]
+  | cons x xs ih => exact insertBy_sorted k x _ ih
+
+theorem window_filterMap (inWin : Rat → Rat → Bool) (x : Rat) {γ : Type} (mk : Rat × Rat → γ) (l pre : List (Rat × Rat)) :
+    (windowFrom inWin x pre.length (l.map (·.1))).filterMap (fun j => (pre ++ l)[j]?.map mk)
+      = (l.filter (fun p => inWin p.1 x)).map mk := by
+  induction l generalizing pre with
+  | nil => simp [windowFrom]
+  | cons p l ih =>
+    have hrec := ih (pre ++ [p])
+    simp only [List.length_append, List.length_cons, List.length_nil, List.append_assoc, List.cons_append,
+      List.nil_append] at hrec
+    simp only [List.map_cons, windowFrom, List.filter_cons]
+    split
+    · simp only [List.filterMap_cons, List.map_cons]
+      have : (pre ++ p :: l)[pre.length]? = some p := by simp
+      simp only [this, Option.map_some]
+      rw [hrec]
+    · exact hrec
+
+theorem expandHit_hitOfWindow (peaks : List (Rat × Rat)) (f : Nat) (w : List Nat) :
+    expandHit peaks f (hitOfWindow w) = w.filterMap (fun j => peaks[j]?.map fun p => (⟨f, p.1, p.2⟩ : FMatch Rat)) := by
+  unfold hitOfWindow
+  split
+  · rename_i h; subst h; rfl
+  · rfl
+
+end
+
+abbrev Cov := List ((Nat × String) × List Nat)
+
+theorem covTouch_of_mem (n : Nat) (l : Nat × String) (c : Cov) (h : l ∈ c.map (·.1)) : covTouch n l c = c := by
+  induction c with
+  | nil => simp at h
+  | cons p c ih =>
+    obtain ⟨l', v⟩ := p
+    simp only [covTouch]
+    by_cases e : l' = l
+    · simp [e]
+    · have : (l' == l) = false := by simpa using e
+      simp only [this, Bool.false_eq_true, if_false]
+      rw [ih]
+      simp only [List.map_cons, List.mem_cons] at h
+      rcases h with h | h
+      · exact absurd h.symm e
+      · exact h
+
+theorem labels_covTouch (n : Nat) (l x : Nat × String) (c : Cov) :
+    x ∈ (covTouch n l c).map (·.1) ↔ x = l ∨ x ∈ c.map (·.1) := by
+  induction c with
+  | nil => simp [covTouch]
+  | cons p c ih =>
+    obtain ⟨l', v⟩ := p
+    simp only [covTouch]
+    by_cases e : l' = l
+    · subst e; simp
+    · have : (l' == l) = false := by simpa using e
+      simp only [this, Bool.false_eq_true, if_false, List.map_cons, List.mem_cons, ih]
+      tauto
+
+theorem labels_covAdd (n : Nat) (l x : Nat × String) (s e : Nat) (c : Cov) :
+    x ∈ (covAdd n l s e c).map (·.1) ↔ x = l ∨ x ∈ c.map (·.1) := by
+  induction c with
+  | nil => simp [covAdd]
+  | cons p c ih =>
+    obtain ⟨l', v⟩ := p
+    simp only [covAdd]
+    by_cases e' : l' = l
+    · subst e'; simp
+    · have : (l' == l) = false := by simpa using e'
+      simp only [this, Bool.false_eq_true, if_false, List.map_cons, List.mem_cons, ih]
+      tauto
+
+/-- processing a match of an already counted fragment changes nothing -/
+theorem matchCoverageGo_dup (n : Nat) (m : CovIn) (post : List CovIn) :
+    ∀ (pre : List CovIn) (seen : List Nat) (cov : Cov),
+      (m ∈ pre ∨ (m.key ∈ seen ∧ (m.charge, m.ion) ∈ cov.map (·.1))) →
+      matchCoverageGo true n (pre ++ m :: post) seen cov = matchCoverageGo true n (pre ++ post) seen cov := by
+  intro pre
+  induction pre with
+  | nil =>
+    intro seen cov h
+    rcases h with h | ⟨h1, h2⟩
+    · simp at h
+    · have hc : seen.contains m.key = true := by simpa using h1
+      simp only [List.nil_append, matchCoverageGo, hc, Bool.and_self, if_true]
+      rw [covTouch_of_mem n _ cov h2]
+  | cons a pre ih =>
+    intro seen cov h
+    simp only [List.cons_append, matchCoverageGo]
+    split
+    · rename_i hd
+      apply ih
+      rcases h with h | ⟨h1, h2⟩
+      · rcases List.mem_cons.mp h with rfl | h
+        · right
+          have : seen.contains m.key = true := by simpa using hd
+          exact ⟨by simpa using this, (labels_covTouch _ _ _ _).mpr (Or.inl rfl)⟩
+        · exact Or.inl h
+      · exact Or.inr ⟨h1, (labels_covTouch _ _ _ _).mpr (Or.inr h2)⟩
+    · split
+      · rfl
+      · apply ih
+        rcases h with h | ⟨h1, h2⟩
+        · rcases List.mem_cons.mp h with rfl | h
+          · right
+            exact ⟨by simp, (labels_covAdd _ _ _ _ _ _).mpr (Or.inl rfl)⟩
+          · exact Or.inl h
+        · exact Or.inr ⟨by simp [h1], (labels_covAdd _ _ _ _ _ _).mpr (Or.inr h2)⟩
+
+
+theorem matchCoverageGo_nodup (n : Nat) :
+    ∀ (ms : List CovIn) (seen seen' : List Nat) (cov : List ((Nat × String) × List Nat)),
+      (∀ m ∈ ms, m.key ∉ seen) → (ms.map (·.key)).Nodup →
+      matchCoverageGo true n ms seen cov = matchCoverageGo false n ms seen' cov := by
+  intro ms
+  induction ms with
+  | nil => intro seen seen' cov _ _; rfl
+  | cons a ms ih =>
+    intro seen seen' cov h hnd
+    have ha : seen.contains a.key = false := by
+      have := h a (by simp)
+      simpa using this
+    rw [List.map_cons, List.nodup_cons] at hnd
+    simp only [matchCoverageGo, ha, Bool.and_false, Bool.false_and, Bool.false_eq_true, if_false]
+    split
+    · rfl
+    · apply ih
+      · intro m hm
+        simp only [List.mem_cons, not_or]
+        refine ⟨?_, h m (by simp [hm])⟩
+        intro e
+        exact hnd.1 (List.mem_map.mpr ⟨m, hm, e⟩)
+      · exact hnd.2
+
 end Score
